@@ -457,6 +457,24 @@ def bytes_slice(interp, base, lo, hi):
     nlo = absolute(lo, blo)
     nhi = absolute(hi, bhi)
     # clip to the known end of the base
+    if isinstance(bhi, K) and bhi.v is not None and \
+            interp.guide is not None:
+        # lazy enumeration: symbolic bounds have a value on this image
+        from .termeval import CannotEval, Raised
+        for which in ('hi', 'lo'):
+            x = nhi if which == 'hi' else nlo
+            if isinstance(x, T):
+                try:
+                    xv = interp.guide(x)
+                except (CannotEval, Raised):
+                    continue
+                if isinstance(xv, int) and not isinstance(xv, bool) and \
+                        xv > bhi.v:
+                    interp.effect('clip', src, x, bhi)
+                    if which == 'hi':
+                        nhi = bhi
+                    else:
+                        nlo = bhi
     if isinstance(bhi, K) and bhi.v is not None:
         if isinstance(nhi, K) and nhi.v is not None and nhi.v > bhi.v:
             interp.effect('clip', src, nhi, bhi)
@@ -1061,6 +1079,14 @@ def list_method(interp, base, name, args, kwargs):
     if name == 'clear' and not args:
         base.items[:] = []
         return K(None)
+    if name == 'remove' and len(args) == 1:
+        for i, x in enumerate(base.items):
+            if x is args[0] or same(x, args[0]):
+                del base.items[i]
+                interp.effect('listdel', interp.termify_ref(base),
+                              interp.termify(args[0]))
+                return K(None)
+        raise AbsRaise(T('exc', 'ValueError', 'list.remove(x): x not in list'))
     if name == 'count' and len(args) == 1:
         return K(sum(1 for x in base.items if same(x, args[0])))
     if name == 'index' and len(args) == 1:
@@ -1125,6 +1151,17 @@ def dict_method(interp, base, name, args, kwargs):
     if name == 'update' and len(args) == 1 and isinstance(args[0], DictV):
         for k, v in zip(args[0].keys, args[0].vals):
             base.set(k, v)
+        return K(None)
+    if name == 'update' and len(args) == 1 and isinstance(
+            args[0], (ListV, TupleV)) and all(
+                isinstance(p, (TupleV, ListV)) and len(p.items) == 2
+                for p in args[0].items):
+        for p in args[0].items:
+            base.set(p.items[0], p.items[1])
+        return K(None)
+    if name == 'update' and not args and kwargs:
+        for k, v in kwargs.items():
+            base.set(K(k), v)
         return K(None)
     if name == 'clear':
         base.keys, base.vals = [], []
